@@ -278,6 +278,9 @@ def check_bin(case):
             dis.append({"clause": "Equality", "detail": "%s is %r, values are %s" % (what, got, "equal" if eqA else "different")})
         if not comm and got and not (eqA and eqB):
             dis.append({"clause": "Equality:Guessed", "detail": "%s is True although the values differ in some context" % what})
+        if not comm and not got and rat(x[0]) == 0 and rat(y[0]) == 0:
+            # zero is zero in every unit and every context: the two lengths resolve equal whatever information is supplied
+            dis.append({"clause": "Equality:Zero", "detail": "%s is False although both lengths are zero in every context" % what})
     except engine.CaseTimeout:
         raise
     except Exception as e:
